@@ -17,6 +17,31 @@ pub struct Item {
     pub prog: Prog,
 }
 
+/// A circuit whose description carries more than 65 535 distinct selector scalars (11 000
+/// rows x 6 fresh coefficients): every length-prefixed vector of the description crosses
+/// the 16-bit boundary of its MessagePack header.
+pub fn big_description_circuit() -> Item {
+    Item {
+        name: "named/description-beyond-65535-scalars".into(),
+        prog: Prog::new(|c| {
+            for i in 0..11_000u64 {
+                let k = 1_000_000 + 8 * i;
+                let mut q = [zero(); 11];
+                q[crate::m1::QM] = fe(k);
+                q[crate::m1::QL] = fe(k + 1);
+                q[crate::m1::QR] = fe(k + 2);
+                q[crate::m1::QO] = fe(k + 3);
+                q[crate::m1::QF] = fe(k + 4);
+                q[crate::m1::QC] = -fe(k + 1);
+                q[crate::m1::QARITH] = one();
+                // a = 1, b = c = d = 0: q_l + q_c = 0
+                c.verif_raw_gate(q, None, [Composer::ONE, Composer::ZERO, Composer::ZERO, Composer::ZERO]);
+            }
+            Ok(())
+        }),
+    }
+}
+
 pub fn named_circuits() -> Vec<Item> {
     let mut v = vec![];
     let mut push = |name: &str, p: Prog| v.push(Item { name: format!("named/{}", name), prog: p });
@@ -334,9 +359,10 @@ pub fn main(tier: Tier, replay: Option<serde_json::Value>) -> i32 {
         run.set_replay_mode();
     }
     let replay_name: Option<String> = replay.as_ref().and_then(|r| r["case"]["name"].as_str().map(|s| s.to_string()));
-    let full = crate::setup::pp((1usize << 13) + 64);
+    let full = crate::setup::pp((1usize << 14) + 64);
     let alpha = e1::alphabet();
     let mut items = named_circuits();
+    items.push(big_description_circuit());
     let progs = match tier {
         Tier::Quick => {
             let mut v = e1::programs(&alpha, 2, 0, 2);
